@@ -1610,7 +1610,9 @@ class FnLower:
         _, ptypes = parse_fn_type(ctor_t)
         if len(args) == 1 and len(ptypes) == 1:
             pt = self.em.tm.ctype(ptypes[0])
-            if pt.is_ref and pt.base == t.base and pt.ptrs == 1 and self.is_trivial_copy(tag):
+            # allocator_interface's COPY constructor is user-provided (select_on_container_copy_construction): never a plain copy
+            user_copy = tag == 'ai' and not ptypes[0].strip().endswith('&&')
+            if pt.is_ref and pt.base == t.base and pt.ptrs == 1 and self.is_trivial_copy(tag) and not user_copy:
                 self.rule('r13')
                 v = self.ex(args[0])
                 self.pre.append('%s = %s;' % (self.deref(dest), v))
